@@ -38,6 +38,9 @@ pub struct Case12b {
     pub format: u8,
     /// all nodes share one class (one PROP column) instead of one class each
     pub same_class: bool,
+    /// format 4 only (no file: `WeakDom::new` on nested builders): token carried by the DOM root itself
+    #[serde(default)]
+    pub root_token: u8,
 }
 
 fn plan_of(c: &Case12b) -> Plan {
@@ -135,14 +138,42 @@ fn probe(dom: &mut WeakDom, id: UniqueId) -> bool {
 
 pub fn judge(c: &Case12b) -> Vec<(String, String)> {
     let mut out = Vec::new();
-    let fmt = ["binary", "binary", "xml", "xml"][c.format as usize];
-    let desc = format!("{} parents={:?} ids={:?}{}", ["binary", "binary(reversed numbering)", "xml", "xml(Properties last)"][c.format as usize], c.parents, c.tokens.iter().map(|&t| token_name(t)).collect::<Vec<_>>(), if c.same_class { " one class" } else { "" });
-    let bytes = match file_of(c) {
-        Ok(b) => b,
-        Err(e) => crate::evidence::machinery_failure(&format!("spec encoder failed: {}", e)),
+    let fmt = ["binary", "binary", "xml", "xml", "new"][c.format as usize];
+    let desc = format!("{} parents={:?} ids={:?}{}{}", ["binary", "binary(reversed numbering)", "xml", "xml(Properties last)", "WeakDom::new(nested builders)"][c.format as usize], c.parents, c.tokens.iter().map(|&t| token_name(t)).collect::<Vec<_>>(), if c.same_class { " one class" } else { "" }, if c.format == 4 { format!(" root={}", token_name(c.root_token)) } else { String::new() });
+    let bytes = if c.format == 4 {
+        Vec::new()
+    } else {
+        match file_of(c) {
+            Ok(b) => b,
+            Err(e) => crate::evidence::machinery_failure(&format!("spec encoder failed: {}", e)),
+        }
     };
     let res = crate::evidence::guarded(|| match c.format {
         0 | 1 => rbx_binary::from_reader(bytes.as_slice()).map_err(|e| e.to_string()),
+        4 => {
+            let plan = plan_of(c);
+            fn b(plan: &Plan, i: usize) -> InstanceBuilder {
+                let n = &plan.nodes[i];
+                let mut x = InstanceBuilder::new(n.class.as_str()).with_name(n.name.as_str());
+                for (k, v) in &n.props {
+                    if let PVal::V(v) = v {
+                        x = x.with_property(k.as_str(), v.clone());
+                    }
+                }
+                for ch in plan.children_of(Some(i)) {
+                    x = x.with_child(b(plan, ch));
+                }
+                x
+            }
+            let mut root = InstanceBuilder::new("DataModel");
+            if let Some(id) = token_id(c.root_token) {
+                root = root.with_property("UniqueId", id);
+            }
+            for t in plan.children_of(None) {
+                root = root.with_child(b(&plan, t));
+            }
+            Ok(WeakDom::new(root))
+        }
         _ => rbx_xml::from_reader_default(bytes.as_slice()).map_err(|e| e.to_string()),
     });
     let mut dom = match res {
@@ -156,7 +187,13 @@ pub fn judge(c: &Case12b) -> Vec<(String, String)> {
         }
         Ok(Ok(d)) => d,
     };
-    let order = preorder(&dom);
+    let mut order = preorder(&dom);
+    let mut tokens = c.tokens.clone();
+    if c.format == 4 {
+        order.insert(0, dom.root_ref());
+        tokens.insert(0, c.root_token);
+    }
+    let c = &Case12b { tokens, ..c.clone() };
     if order.len() != c.tokens.len() {
         out.push((format!("c12b|{}|shape", fmt), format!("{} instances decoded, {} in the file ({})", order.len(), c.tokens.len(), desc)));
         return out;
@@ -248,13 +285,21 @@ pub fn cases(tier: Tier) -> Vec<Case12b> {
             for code in 0..total {
                 let mut c = code;
                 let tokens: Vec<u8> = (0..n).map(|_| { let x = (c % 4) as u8; c /= 4; x }).collect();
-                for format in 0..4u8 {
+                for format in 0..5u8 {
                     for same_class in [false, true] {
+                        if format == 4 {
+                            if !same_class {
+                                for root_token in 0..4u8 {
+                                    out.push(Case12b { parents: parents.clone(), tokens: tokens.clone(), format, same_class, root_token });
+                                }
+                            }
+                            continue;
+                        }
                         // one PROP column carries one value per instance: with a shared class every node needs the property
                         if same_class && format < 2 && tokens.iter().any(|&t| t == 0) && tokens.iter().any(|&t| t != 0) {
                             continue;
                         }
-                        out.push(Case12b { parents: parents.clone(), tokens: tokens.clone(), format, same_class });
+                        out.push(Case12b { parents: parents.clone(), tokens: tokens.clone(), format, same_class, root_token: 0 });
                     }
                 }
             }
